@@ -423,8 +423,8 @@ func runC13(o Opts) *Result {
 	// entry first / last, long-expired ones in between, restored into an UnlimitedTTL target, then one cleanup cycle (C11).
 	if o.Only < 0 {
 		ctx := context.Background()
-		for _, kind := range []string{"sharded", "shardedOf"} {
-			for _, neverPos := range []string{"first", "last"} {
+		for _, kind := range []string{"sharded", "shardedOf", "sync"} {
+			for _, neverPos := range []string{"first", "last", "absent"} { // (absent: every entry of the dump carries an expiry)
 				byShard := map[uint64][]byte{}
 				for i := 0; len(byShard) < 4 && i < 4000; i++ {
 					k := []byte(fmt.Sprintf("order-%s-%d", kind, i))
@@ -449,6 +449,9 @@ func runC13(o Opts) *Result {
 				never := byShard[shs[0]]
 				if neverPos == "last" {
 					never = byShard[shs[len(shs)-1]]
+				}
+				if neverPos == "absent" {
+					never = []byte("no such key")
 				}
 				for _, sh := range shs {
 					k := byShard[sh]
@@ -481,7 +484,7 @@ func runC13(o Opts) *Result {
 						left++
 					}
 				}
-				if left != 0 || !haveNever {
+				if left != 0 || (!haveNever && neverPos != "absent") {
 					res.Violations = append(res.Violations, Violation{Property: "C11", Kind: "monitor", Sig: "xfer:cleanup-after-restore-order:" + kind,
 						Detail: fmt.Sprintf("%s, UnlimitedTTL target, dump with the never-expiring entry %s and %d entries expired for an hour: after Restore and one cleanup cycle %d long-expired entries remain (never-expiring entry present: %v)", kind, neverPos, len(shs)-1, left, haveNever),
 						Replay: map[string]interface{}{"engine": "xfer", "profile": "c13", "scenario": "directed restore order", "backend": kind, "never_expiring_entry": neverPos}})
